@@ -25,6 +25,18 @@ def replace_node(node: _M, repl: _M) -> None:
         repl.reattach(token_store)
 
 
+def _check_detachable(values: Iterable[base.RawModel]) -> None:
+    """Refuses a batch up front if detach() would refuse any of its values, so that a refused call changes nothing."""
+    seen = set[int]()
+    for value in values:
+        token_store = value.token_store
+        if id(value) in seen or token_store and (
+                value.first_token is not token_store.get_first() or
+                value.last_token is not token_store.get_last()):
+            raise ValueError('Cannot reuse node. Consider making a copy.')
+        seen.add(id(value))
+
+
 class required_node_property(base_rw_property[_M, base.RawTreeModel]):
     def __init__(self, inner_field: required_field[_M]) -> None:
         super().__init__()
@@ -197,6 +209,7 @@ class RepeatedNodeWrapper(MutableSequence[_M]):
         assert isinstance(value, Iterable)
         values = list(value)
         r = indexes.range_from_index(index, len(self._repeated.items))
+        _check_detachable(values)
         separators_before_last = (
             self._repeated.token_store.get_prev(self._repeated.items[0].first_token)
             if self._repeated.items else None)
@@ -243,6 +256,7 @@ class RepeatedNodeWrapper(MutableSequence[_M]):
 
     def extend(self, values: Iterable[_M]) -> None:
         values = list(values)
+        _check_detachable(values)
         index = len(self._repeated.items)
         self._insert_tokens(index, values)
         for value in values:
